@@ -7,12 +7,12 @@
 (* judges it with the operators of the specification family; see RTJudge   *)
 (* for how verdicts are collected.                                         *)
 (***************************************************************************)
-EXTENDS RTTransform, RTPlan, RTTips, RTSelect, RTLabware, RTJudge
+EXTENDS RTTransform, RTPlan, RTTips, RTSelect, RTLabware, RTDilution, RTJudge
 
 Data  == JsonDeserialize(IOEnv.TRACE_FILE)
 Calls == Data.calls
 
-VARIABLE i
+VARIABLE ci
 
 (***************************************************************************)
 (* C08: one geometry per call.  evo/fluent/idx/pos are listed for the      *)
@@ -107,7 +107,7 @@ JudgeOptPart(c) == {
 (***************************************************************************)
 MapShape(a, F(_)) ==
   IF a.k = "s" THEN [k |-> "s", x |-> F(a.x)]
-  ELSE IF a.k = "l" THEN [k |-> "l", x |-> [j \in 1..Len(a.x) |-> F(a.x[j])]]
+  ELSE IF a.k = "l" THEN [k |-> "l", x |-> [i \in 1..Len(a.x) |-> F(a.x[i])]]
   ELSE [k |-> "m", x |-> [r \in 1..Len(a.x) |-> [cc \in 1..Len(a.x[r]) |-> F(a.x[r][cc])]]]
 AllWells(a) == Range(FlattenF(a))
 
@@ -161,6 +161,24 @@ JudgeCtor(c) ==
   }
 
 (***************************************************************************)
+(* C14: DilutionPlan objects                                               *)
+(***************************************************************************)
+JudgeDilPlan(c) ==
+  LET ok == c.out = "ok"
+      shaped == ok /\ c.Robs = c.R /\ c.Cobs = c.C /\ c.vmaxobs = c.vmax /\ PlanOrdered(c)
+  IN {
+    Cl("C14.outcome", TRUE, c.out \in {"ok", "value"}),
+    Cl("C14.complete", ok, shaped),
+    Cl("C14.whole", shaped, PlanWhole(c)),
+    Cl("C14.bounds", shaped /\ PlanWhole(c), PlanBounds(c)),
+    Cl("C14.budget", shaped /\ PlanWhole(c), PlanBudget(c)),
+    \* exact comparison only where every implied denominator stays below 10^6 (vmax <= 50, at most 2 serial steps)
+    Cl("C14.conc", shaped /\ PlanWhole(c) /\ c.small /\ c.xsup /\ (\A i \in 1..Len(c.instr) : c.instr[i].dsteps <= 2),
+       PlanConcentrations(c)),
+    Cl("C14.totals", shaped /\ PlanWhole(c), PlanTotals(c))
+  }
+
+(***************************************************************************)
 JudgeCall(c) ==
   CASE c.fn = "geom" -> JudgeGeom(c)
     [] c.fn = "tw"   -> JudgeTW(c)
@@ -173,11 +191,12 @@ JudgeCall(c) ==
     [] c.fn = "rot" -> JudgeRot(c)
     [] c.fn = "rand" -> JudgeRand(c)
     [] c.fn = "ctor" -> JudgeCtor(c)
+    [] c.fn = "dilplan" -> JudgeDilPlan(c)
     [] OTHER -> {Cl("machinery.unknown_fn", TRUE, FALSE)}
 
-Init == i = 1 /\ InitRegisters
-Next == /\ i <= Len(Calls)
-        /\ Judge([i |-> i, fn |-> Calls[i].fn, id |-> Calls[i].id], JudgeCall(Calls[i]))
-        /\ i' = i + 1
+Init == ci = 1 /\ InitRegisters
+Next == /\ ci <= Len(Calls)
+        /\ Judge([i |-> ci, fn |-> Calls[ci].fn, id |-> Calls[ci].id], JudgeCall(Calls[ci]))
+        /\ ci' = ci + 1
 Post == WriteVerdicts
 =============================================================================
